@@ -96,10 +96,14 @@ def gen_item(rng: Random, fields: list[str] | None = None, allow_keyword_mod: bo
     elif kind == "list":
         v = [gen_value(rng, special) for _ in range(rng.randint(2, 3))]
         v = [x for x in v if x is not None and not isinstance(x, bool)] or ["x"]
+        if chance(rng, 0.1):
+            v.append(copy.deepcopy(pick(rng, v)))  # the same value twice in one list
     elif kind == "str":
         v = gen_string(rng, special) if chance(rng, 0.7) else [gen_string(rng, special), gen_string(rng, special)]
     elif kind == "strlist":
         v = [gen_string(rng, special) for _ in range(rng.randint(2, 3))]
+        if chance(rng, 0.1):
+            v.append(pick(rng, v))  # the same value twice in one list
     elif kind == "regex":
         v = pick(rng, ["foo.*bar", "^a[bc]+$", "x\\d+/y", "(?:cmd|pwsh)\\.exe$", "a\\\\b", "no/slash"])
     elif kind == "plainstr":
@@ -357,6 +361,10 @@ def gen_transformation(rng: Random, kind: str | None = None, idx: int = 0, depth
         if chance(rng, 0.3):
             t["template"] = True
             t["conditions"] = {"src": "$product-$category"}
+        if chance(rng, 0.3):
+            # an explicit name for the added detection, taken from the names rules use themselves: the
+            # transformation has to draw a replacement for the rules that already have such a detection
+            t["name"] = pick(rng, NAMES_PLAIN)
     elif kind == "drop_detection_item":
         t = {"type": "drop_detection_item"}
     elif kind == "change_logsource":
